@@ -859,6 +859,8 @@ pub fn run(tier: Tier) -> i32 {
     rep.cov("rule", format!("{} sessions: ping (4 methods x 4 markers x credentials) ; speedtest downloads /Nmb.bin for N in {{0,1,2,(99,100),101,2^32,+5,05,1.5,'',-1,1e1}} with prompt and back-pressured clients, uploads with Content-Length in {{absent,0,1,5,120MiB,120MiB+1,2^32,x,-1,1.0}} and bodies shorter/equal/longer, other methods/paths; reverse proxy {{IPv4,IPv6 loopback origin}} x {{policy on,off}} x 5 path/upgrade selections x 3 steering attempts; 5 host-selected scenarios over real TLS; each over HTTP/1.1 and HTTP/2 where the channel permits", cs.len()));
     rep.sample(json!({"case": cs[3]}));
     rep.assume("HTTP/3 variants are not driven; the 100 MiB download and 120 MiB upload run in the thorough tier only");
+    super::cq::c18_into(&mut rep, tier);
+    super::cq::c18_services_into(&mut rep);
     rep.finish()
 }
 
